@@ -77,11 +77,16 @@ Definition spec_neg (n : nat) (a : Z) : Z := (- a) mod Bn n.
 (* ---- op tables ---- *)
 Open Scope string_scope. Open Scope Z_scope.
 
-Definition checked_step (op : Z) (x : option (list Z)) (y : list Z) : option (list Z) :=
-  match x with
-  | None => None
-  | Some xv => if op =? 0 then uint_checked_add xv y else uint_checked_sub xv y
+(* Checked<T>: self.0.and_then(|lhs| rhs.0.and_then(|rhs| lhs.checked_op(&rhs))) -- none is sticky on either side *)
+Definition checked_bin (op : Z) (x y : option (list Z)) : option (list Z) :=
+  match x, y with
+  | Some xv, Some yv => if op =? 0 then uint_checked_add xv yv else uint_checked_sub xv yv
+  | _, _ => None
   end.
+(* shape 0: (a op1 b) op2 c ; shape 1: a op2 (b op1 c) *)
+Definition checked_expr (shape op1 op2 : Z) (a b c : list Z) : option (list Z) :=
+  if shape =? 0 then checked_bin op2 (checked_bin op1 (Some a) (Some b)) (Some c)
+  else checked_bin op2 (Some a) (checked_bin op1 (Some b) (Some c)).
 
 (* BoxedUint += rhs  (rhs: BoxedUint / Uint<N> limbs / primitive widened to U64 or U128) *)
 Definition boxed_add_assign_op (dbg : bool) (a b : list Z) : outcome :=
@@ -119,7 +124,7 @@ Definition ops_addsub_model : list (string * opfn) := [
   ("uint.wrapping_neg", fun _ a => Val [uint_wrapping_neg (arg 0 a)]);
   ("uint.wrapping_neg_if", fun _ a => Val [uint_wrapping_neg_if (arg 0 a) (choice_of_bool (negb (sarg 1 a =? 0)))]);
   ("uint.checked_expr", fun _ a =>
-     vopt (checked_step (sarg 4 a) (checked_step (sarg 3 a) (Some (arg 0 a)) (arg 1 a)) (arg 2 a)));
+     vopt (checked_expr (sarg 6 a) (sarg 3 a) (sarg 4 a) (arg 0 a) (arg 1 a) (arg 2 a)));
   ("boxed.adc", fun _ a => vpair (boxed_adc (arg 0 a) (arg 1 a) (sarg 2 a)));
   ("boxed.sbb", fun _ a => vpair (boxed_sbb (arg 0 a) (arg 1 a) (sarg 2 a)));
   ("boxed.wrapping_add", fun _ a => Val [fst (boxed_adc (arg 0 a) (arg 1 a) 0)]);
@@ -138,26 +143,15 @@ Definition ops_addsub_model : list (string * opfn) := [
 ].
 
 (* Spec table: the same ops computed on the represented integers. *)
-Definition sp_val (n : nat) (x : Z) : outcome := Val [to_limbs n x].
-Definition sp_fits (n : nat) (x : Z) : bool := (0 <=? x) && (x <? Bn n).
-Definition sp_checked (n : nat) (x : Z) : outcome := if sp_fits n x then sp_val n x else NoneV.
-Definition sp_panicking (n : nat) (x : Z) : outcome := if sp_fits n x then sp_val n x else PanicV.
-Definition sp_saturating (n : nat) (x : Z) : outcome :=
-  sp_val n (if x <? 0 then 0 else if x <? Bn n then x else Bn n - 1).
-Definition sp_wrapping (n : nat) (x : Z) : outcome := sp_val n (x mod Bn n).
 Definition sp_adc (n : nat) (a b c : Z) : outcome :=
   let '(r, c') := spec_adc n a b c in Val [to_limbs n r; [c']].
 Definition sp_sbb (n : nat) (a b c : Z) : outcome :=
   let '(r, c') := spec_sbb n a b c in Val [to_limbs n r; [c']].
-Definition ev (i : nat) (a : list (list Z)) : Z := eval (arg i a).
-Definition ln (i : nat) (a : list (list Z)) : nat := length (arg i a).
-Definition lmax (a : list (list Z)) : nat := Nat.max (ln 0 a) (ln 1 a).
-
-Definition sp_checked_step (n : nat) (op : Z) (x : option Z) (y : Z) : option Z :=
-  match x with
-  | None => None
-  | Some xv => let r := if op =? 0 then xv + y else xv - y in
-               if sp_fits n r then Some r else None
+Definition sp_checked_bin (n : nat) (op : Z) (x y : option Z) : option Z :=
+  match x, y with
+  | Some xv, Some yv => let r := if op =? 0 then xv + yv else xv - yv in
+                        if sp_fits n r then Some r else None
+  | _, _ => None
   end.
 
 Definition ops_addsub_spec : list (string * opfn) := [
@@ -188,8 +182,11 @@ Definition ops_addsub_spec : list (string * opfn) := [
   ("uint.wrapping_neg", fun _ a => sp_wrapping (ln 0 a) (- ev 0 a));
   ("uint.wrapping_neg_if", fun _ a => sp_wrapping (ln 0 a) (if sarg 1 a =? 0 then ev 0 a else - ev 0 a));
   ("uint.checked_expr", fun _ a =>
-     match sp_checked_step (ln 0 a) (sarg 4 a) (sp_checked_step (ln 0 a) (sarg 3 a) (Some (ev 0 a)) (ev 1 a)) (ev 2 a) with
-     | Some r => sp_val (ln 0 a) r | None => NoneV end);
+     let n := ln 0 a in
+     match (if sarg 6 a =? 0
+            then sp_checked_bin n (sarg 4 a) (sp_checked_bin n (sarg 3 a) (Some (ev 0 a)) (Some (ev 1 a))) (Some (ev 2 a))
+            else sp_checked_bin n (sarg 4 a) (Some (ev 0 a)) (sp_checked_bin n (sarg 3 a) (Some (ev 1 a)) (Some (ev 2 a)))) with
+     | Some r => sp_val n r | None => NoneV end);
   ("boxed.adc", fun _ a => sp_adc (lmax a) (ev 0 a) (ev 1 a) (sarg 2 a));
   ("boxed.sbb", fun _ a => sp_sbb (lmax a) (ev 0 a) (ev 1 a) (sarg 2 a));
   ("boxed.wrapping_add", fun _ a => sp_wrapping (lmax a) (ev 0 a + ev 1 a));
